@@ -13,11 +13,12 @@ import MemchrModel.Driver.Swar
 import MemchrModel.Driver.MemchrApi
 import MemchrModel.Driver.Memmem
 import MemchrModel.Driver.Alias
+import MemchrModel.Driver.Surface
 
 open Memchr Memchr.Driver
 
 def handlers : List (String → List String → Option String) :=
-  [handleGeneric, handleIsEqualRk, handleTwoWay, handlePrefilter, handleShiftOrPair, handlePackedPair, handleSwar, handleMemchrApi, handleMemmem, handleAlias]
+  [handleGeneric, handleIsEqualRk, handleTwoWay, handlePrefilter, handleShiftOrPair, handlePackedPair, handleSwar, handleMemchrApi, handleMemmem, handleAlias, handleSurface]
 
 def step (line : String) : String :=
   match line.trimAscii.toString.splitOn " " with
@@ -26,7 +27,7 @@ def step (line : String) : String :=
     -- `memchrd`/`countd`/`iterd` are the dispatched public functions: for the model they are
     -- the same routine on the backend named in the op (the one `select` picks in that process)
     let op := if op == "memchrd" then "memchr" else if op == "countd" then "count"
-              else if op == "iterd" then "iter" else op
+              else if op == "iterd" || op == "iterdn" then "iter" else op
     match handlers.findSome? (fun h => h op args) with
     | some out => out
     | none => "bad-op"
